@@ -47,3 +47,34 @@ def build(spec, dic=None):
 
 def T(x, dtype=None):
     return torch.tensor(x, dtype=dtype or torch.get_default_dtype())
+
+
+# ------------------------------------------------------------------ default-dtype route
+import contextlib
+
+
+@contextlib.contextmanager
+def default_dtype(dtype):
+    """torchtree's own entry point never changes torch's default dtype (float32); a double-precision analysis gives
+    every Parameter an explicit dtype.  The harness runs with a float64 default, which hides buffers created without
+    a dtype; this context evaluates a case the way the real program does"""
+    import torch
+
+    old = torch.get_default_dtype()
+    torch.set_default_dtype(dtype)
+    try:
+        yield
+    finally:
+        torch.set_default_dtype(old)
+
+
+def explicit64(spec):
+    """the specification with "dtype": "torch.float64" on every floating-point Parameter"""
+    if isinstance(spec, list):
+        return [explicit64(x) for x in spec]
+    if isinstance(spec, dict):
+        d = {k: explicit64(v) for k, v in spec.items()}
+        if d.get("type") in ("Parameter", "torchtree.Parameter") and ("tensor" in d or "full" in d or "full_like" in d) and "dtype" not in d:
+            d["dtype"] = "torch.float64"
+        return d
+    return spec
